@@ -429,3 +429,13 @@ def d1_10(ctx):
     for i, (ok, how, node) in enumerate(res):
         ctx.check(ok, ckey(tag.key, f"_decode#visible-only{'' if not i else i}"), node, how,
                   "StructTag._decode returns hidden (private/host) members: a structure nested in another structure or array element shows its ZZZZZZZZZZ*/CTL host members in read values")
+
+
+@rule(P, "D1.3", "T-ACC", floor=4)
+def d1_3(ctx):
+    """Fragment reassembly by byte offset: the next request offset is the number of value bytes received so far, the loop
+    continues exactly on 'more data', the value bytes are joined in order - the same obligations as D4.5, owned here for
+    'a read returns exactly what the controller holds' (a wrong offset drops or repeats bytes of the value)."""
+    from .C04 import d4_5
+
+    d4_5(ctx)
